@@ -1000,10 +1000,20 @@ func runC01(c *Ctx) {
 // killUnderFire: many clients send at full speed to a host with a single pooled connection while that connection is
 // killed again and again; every connection death races with the senders registering requests on it.
 func killUnderFire(c *Ctx, idx int, nClients, rounds int) {
+	killUnderFireHow(c, idx, nClients, rounds, false)
+}
+
+// killUnderFireHow: with garbage set the backend connections are not killed by the harness; instead a node answers the next
+// request it reads with bytes that are no answer to it (a frame on a stream nobody uses, or junk), and the proxy closes the
+// connection itself - while the well-behaved clients' requests are in flight on it and keep arriving (C17).
+func killUnderFireHow(c *Ctx, idx int, nClients, rounds int, garbage bool) {
 	r := c.R
 	label := "kill-under-fire"
-	scenario := map[string]interface{}{"kind": "kill-under-fire", "idx": idx, "clients": nClients, "rounds": rounds}
-	c.Step("kill-under-fire idx=%d clients=%d rounds=%d", idx, nClients, rounds)
+	if garbage {
+		label = "backend-garbage-under-fire"
+	}
+	scenario := map[string]interface{}{"kind": label, "idx": idx, "clients": nClients, "rounds": rounds}
+	c.Step("%s idx=%d clients=%d rounds=%d", label, idx, nClients, rounds)
 	bed, err := px.NewBed(px.BedConfig{Hosts: 1 + idx%2, NumConns: 1, Keyspaces: []string{"ks1"}, ReconnectBase: time.Millisecond, ReconnectMax: 2 * time.Millisecond})
 	if err != nil {
 		r.Inconc("kill-under-fire: cannot start bed: " + err.Error())
@@ -1013,11 +1023,27 @@ func killUnderFire(c *Ctx, idx int, nClients, rounds int) {
 	bed.OnHook(nil)
 	scripts := NewScripts()
 	bed.Cluster.SetScript(scripts.Func())
+	var garble [3]int32 // per host: the next request read there is answered with garbage
+	if garbage {
+		inner := scripts.Func()
+		bed.Cluster.SetScript(func(a *fakecass.Arrival) fakecass.Outcome {
+			if h := a.Conn.Host.Idx; a.Token != "" && h < len(garble) {
+				if k := atomic.SwapInt32(&garble[h], 0); k != 0 {
+					raw := []byte{0xff, 0xfe, 0xfd, 0xfc, 0xfb, 0xfa, 0xf9, 0xf8, 0xf7, 0xf6}
+					if k%2 == 0 {
+						raw = respFrame(a.Header.Version, 0, a.Stream+1000, 8, []byte{0, 0, 0, 1})
+					}
+					return fakecass.Outcome{Name: "Garbage", RawFrame: raw}
+				}
+			}
+			return inner(a)
+		})
+	}
 	var clients []*rawcql.Client
 	for i := 0; i < nClients; i++ {
 		cl, err := bed.ReadyClient(primitive.ProtocolVersion4, "")
 		if err != nil {
-			r.Inconc("kill-under-fire: handshake: " + err.Error())
+			r.Inconc(label + ": handshake: " + err.Error())
 			return
 		}
 		defer cl.Close()
@@ -1065,12 +1091,33 @@ func killUnderFire(c *Ctx, idx int, nClients, rounds int) {
 	}
 	for k := 0; k < rounds; k++ {
 		time.Sleep(time.Duration(1500+(k%7)*300) * time.Microsecond)
+		if garbage {
+			for _, h := range all {
+				atomic.StoreInt32(&garble[h], int32(1+k%2))
+			}
+			time.Sleep(2 * time.Millisecond) // (the closed connection has to be replaced before the next one is worth garbling)
+			continue
+		}
 		bed.Cluster.KillPooled(k%2 == 0, all...)
 	}
 	close(stop)
 	wg.Wait()
 	drain(r, bed, scripts, clients, label, scenario, mark)
 	r.Eval(int(sent))
+	if garbage {
+		n := 0
+		for _, e := range bed.Log.Snapshot()[mark:] {
+			if e.Src == "backend" && e.K == "reply" && e.Outcome == "Garbage" {
+				n++
+			}
+		}
+		r.Obs("garbage_replies_under_fire", n)
+		r.Obs("requests_beside_garbage_replies", int(sent))
+		if n >= 2 {
+			r.NonTrivial(fmt.Sprintf("%s/cl%d/r%d/h%d", label, nClients, rounds, 1+idx%2))
+		}
+		return
+	}
 	r.Obs("kill_under_fire_runs", 1)
 	r.Obs("requests_sent", int(sent))
 	r.Obs("connection_kills_under_fire", rounds)
